@@ -63,7 +63,8 @@ def field_kwargs(f, for_mutation=False):
             kw['db_index'] = False
     elif f['db_index']:
         kw['db_index'] = True
-    if f['unique'] and kind != 'OneToOne':
+    if f['unique'] and (kind != 'OneToOne' or for_mutation):
+        # a hinted AddField of a OneToOneField carries unique=True (the signature records it)
         kw['unique'] = True
     if f['db_column']:
         kw['db_column'] = f['db_column']
@@ -227,7 +228,9 @@ def to_mutation(m):
     k = m['kind']
     if k == 'AddField':
         f = m['field']
-        kw = field_kwargs(f)
+        kw = field_kwargs(f, for_mutation=True)
+        if f['kind'] == 'OneToOne':
+            kw['unique'] = True
         if f['kind'] in S.REL_KINDS:
             kw['related_model'] = '%s.%s' % tuple(f['target'])
         if m.get('initial') is not None:
